@@ -882,3 +882,53 @@ def check_regexp_matcher(ctx, rep, f, rule=RULE + '.M22'):
         rep.undecided(rule, f, 'def ' + f.name, 'outside the evaluator: {}'.format(e))
         return
     rep.holds(rule, f, 'def ' + f.name, 'on {} evaluations (35 model expressions with nested stars, stars over expressions matching the empty word, concatenations with an empty-matching side, splits whose first match is a dead end, 0 inside; all words over {{a, b}} up to length 3) the answer is membership in the denoted language'.format(cases))
+
+
+# ---- CYK table and membership on model grammars in Chomsky normal form ------------------------------------------------------------
+
+def check_cyk(ctx, rep, f_matrix, f_accepts, rule=RULE + '.M23'):
+    """cfg_cyk_matrix and cfg_accepts_word on the model grammars in Chomsky normal form and all words up to length 4 (3 for a
+    three-letter alphabet): every cell (i, j) holds exactly the variables that derive w[i..j] (derivability computed by the
+    analyser by plain enumeration of the model grammar), and the membership test answers True exactly when the start variable
+    derives the word."""
+    cases = 0
+    try:
+        for name, rules in _CNF_GRAMMARS.items():
+            G0 = _grammar(rules)
+            plain = _rules_of(G0)
+            sigma = sorted({x for _, syms in plain for x, kind in syms if kind == 'Terminal'})
+            maxlen = 4 if len(sigma) <= 2 else 3
+            derives = {A: _words(plain, A, maxlen) for A in {lhs for lhs, _ in plain}}
+            for n in range(maxlen + 1):
+                for tup in itertools.product(sigma, repeat=n):
+                    w = ''.join(tup)
+                    G = _grammar(rules)
+                    G._f['epsilon'] = T('ε')
+                    ok, got = _run(rule, rep, f_accepts, lambda: _interp(ctx, 'asc', classes=_CFG_CLASSES, max_steps=400000).call(f_accepts, [G, w]), 'on the grammar {} and the word {!r}'.format(name, w))
+                    if not ok:
+                        return
+                    cases += 1
+                    if not isinstance(got, bool):
+                        raise Unsupported('the answer is not a boolean')
+                    if got != (w in derives['S']):
+                        rep.violates(rule, f_accepts, 'def ' + f_accepts.name, 'on the grammar {} the word {!r} is {} although the start variable {} it'.format(name, w, 'accepted' if got else 'rejected', 'derives' if w in derives['S'] else 'does not derive'))
+                        return
+                    if n == 0:
+                        continue
+                    ok, X = _run(rule, rep, f_matrix, lambda: _interp(ctx, 'asc', classes=_CFG_CLASSES, max_steps=400000).call(f_matrix, [G, w]), 'on the grammar {} and the word {!r}'.format(name, w))
+                    if not ok:
+                        return
+                    if not hasattr(X, 'get'):
+                        raise Unsupported('the table is not a mapping')
+                    for i in range(n):
+                        for j in range(i, n):
+                            want = {A for A in derives if w[i:j + 1] in derives[A]}
+                            have = {str(x) for x in (X.get((i, j)) or set())}
+                            cases += 1
+                            if have != want:
+                                rep.violates(rule, f_matrix, 'def ' + f_matrix.name, 'on the grammar {} and the word {!r} the cell ({}, {}) holds {} but the variables that derive {!r} are {}'.format(name, w, i, j, sorted(have), w[i:j + 1], sorted(want)))
+                                return
+    except (Unsupported, RecursionError) as e:
+        rep.undecided(rule, f_matrix, 'def ' + f_matrix.name, 'outside the evaluator: {}'.format(e))
+        return
+    rep.holds(rule, f_matrix, 'def ' + f_matrix.name, 'on {} comparisons (five model grammars in Chomsky normal form, all words up to length 4 resp. 3) every cell holds exactly the variables that derive the subword and the membership test agrees with derivability from the start variable'.format(cases))
